@@ -283,16 +283,21 @@ where
     }
 
     fn position(&self) -> Position {
-        Position {
-            line: self.iter.line(),
-            column: self.iter.col(),
-        }
+        // A peeked byte has been read from the iterator, but not consumed yet.
+        let (line, column) = match self.ch {
+            Some(_) => self.iter.prev_position(),
+            None => (self.iter.line(), self.iter.col()),
+        };
+        Position { line, column }
     }
 
     fn peek_position(&self) -> Position {
         // The LineColIterator updates its position during peek() so it has the
         // right one here.
-        self.position()
+        Position {
+            line: self.iter.line(),
+            column: self.iter.col(),
+        }
     }
 
     fn byte_offset(&self) -> usize {
